@@ -279,7 +279,7 @@ def plan(tier):
         s = {'cause': cause, 'gmax': 8 if q else 14, 'rmax': 12 if q else 20}
         if cause == 'kill_override':
             s['omax'] = 5 if q else 10
-            s['gmax'] = 2 if q else 4
+            s['gmax'] = 6 if q else 10       # watcher timeouts well above the override: an override that is dropped shows
         if cause in ('decr', 'reload', 'reload_seq'):
             s['n0'] = 2 if cause != 'decr' else 1
         sh.append(s)
